@@ -212,8 +212,12 @@ impl VM {
                 }),
                 pos,
             )?;
+            return Ok(());
         }
-        Ok(())
+        Err(Error::new(
+            format!("No cast from {} to {}", val.type_name(), t).into(),
+            pos,
+        ))
     }
     fn op_cast(&mut self, t: CastType) -> Result<(), Error> {
         let (val, pos) = self.pop()?;
